@@ -202,6 +202,24 @@ func sweepCached(p *Program, keys []string, timeout int) *SweepResult {
 	cdir := filepath.Join(verifDir, "work", "cache")
 	os.MkdirAll(cdir, 0o755)
 	cfile := filepath.Join(cdir, "sweep-"+dg+".json")
+	if os.Getenv("GOVC_DEV_REUSE_SWEEP") != "" {
+		// development aid (never set by the registered commands): reuse the newest sweep result
+		// although the engine binary changed (selection / reporting changes only)
+		if all, _ := filepath.Glob(filepath.Join(cdir, "sweep-*.json")); len(all) > 0 {
+			sort.Slice(all, func(i, j int) bool {
+				a, _ := os.Stat(all[i])
+				b, _ := os.Stat(all[j])
+				return a.ModTime().After(b.ModTime())
+			})
+			if b, err := os.ReadFile(all[0]); err == nil {
+				var sr SweepResult
+				if json.Unmarshal(b, &sr) == nil {
+					sr.CacheHit = true
+					return &sr
+				}
+			}
+		}
+	}
 	if os.Getenv("GOVC_NOCACHE") == "" {
 		if b, err := os.ReadFile(cfile); err == nil {
 			var sr SweepResult
